@@ -4,7 +4,6 @@ import (
 	"fmt"
 	"go/ast"
 	"go/constant"
-	"go/parser"
 	"go/token"
 	"go/types"
 	"strconv"
@@ -135,7 +134,7 @@ func (c *evalCtx) evalBoolText(s string) string {
 			return not(c.evalBoolText(s[1:]))
 		}
 	}
-	e, err := parser.ParseExpr(s)
+	e, err := parseExprText(s)
 	if err != nil {
 		cfail("cannot parse %q: %v", s, err)
 	}
@@ -164,6 +163,28 @@ func matchingParen(s string) int {
 
 func (c *evalCtx) resolveType(s string) types.Type {
 	s = strings.TrimSpace(s)
+	// imports are file-scoped and invisible to types.Eval at package scope: resolve
+	// qualified names (with *, [] prefixes) through the package's import list
+	switch {
+	case strings.HasPrefix(s, "*"):
+		if strings.Contains(s, ".") {
+			return types.NewPointer(c.resolveType(s[1:]))
+		}
+	case strings.HasPrefix(s, "[]"):
+		if strings.Contains(s, ".") {
+			return types.NewSlice(c.resolveType(s[2:]))
+		}
+	default:
+		if i := strings.Index(s, "."); i > 0 && !strings.ContainsAny(s, "[]*( ") {
+			for _, imp := range c.pkg.Imports() {
+				if imp.Name() == s[:i] {
+					if tn, ok := imp.Scope().Lookup(s[i+1:]).(*types.TypeName); ok {
+						return tn.Type()
+					}
+				}
+			}
+		}
+	}
 	tv, err := types.Eval(token.NewFileSet(), c.pkg, token.NoPos, s)
 	if err != nil || tv.Type == nil {
 		// try universe / qualified through imports of the package
@@ -386,6 +407,9 @@ func (c *evalCtx) toInt64(v SV) string {
 
 func (c *evalCtx) ident(name string) SV {
 	enc := c.f.enc
+	if i := strings.Index(name, "__nth"); i > 0 {
+		name = name[:i] + "#" + name[i+5:]
+	}
 	switch name {
 	case "true":
 		return SV{t: types.Typ[types.Bool], term: "true"}
@@ -605,6 +629,22 @@ func (c *evalCtx) call(x *ast.CallExpr) SV {
 			c2.bind = nb
 		}
 		return c2.eval(x.Args[0])
+	case "athead":
+		// athead(k, e): e evaluated in the state at the head of the enclosing loop k (the
+		// beginning of its current iteration)
+		argn(2)
+		kv := c.eval(x.Args[0])
+		if kv.cval == nil {
+			cfail("athead needs a constant loop ordinal")
+		}
+		k64, _ := constant.Int64Val(kv.cval)
+		top := c.f
+		if top.headHeaps == nil || top.headHeaps[int(k64)] == nil {
+			cfail("athead(%d, ...): no enclosing loop head state", k64)
+		}
+		c2 := *c
+		c2.heap = top.headHeaps[int(k64)]
+		return c2.eval(x.Args[1])
 	case "len":
 		argn(1)
 		v := c.materialise(c.eval(x.Args[0]))
@@ -700,14 +740,14 @@ func (c *evalCtx) call(x *ast.CallExpr) SV {
 		return c.f.logicalApp(callee, fc, args)
 	}
 	// conversions T(x)
-	if tv, err := types.Eval(token.NewFileSet(), c.pkg, token.NoPos, types.ExprString(x.Fun)); err == nil && tv.IsType() {
+	if ct := c.tryType(types.ExprString(x.Fun)); ct != nil {
 		argn(1)
 		v := c.eval(x.Args[0])
 		if v.cval != nil && isUntyped(v.t) {
-			return c.coerce(v, tv.Type)
+			return c.coerce(v, ct)
 		}
-		term, _ := enc.convertTerm(v.term, v.t, tv.Type, nil)
-		return SV{t: tv.Type, term: term}
+		term, _ := enc.convertTerm(v.term, v.t, ct, nil)
+		return SV{t: ct, term: term}
 	}
 	cfail("unknown function %s in contract (%s)", types.ExprString(x.Fun), c.what)
 	return SV{}
@@ -756,7 +796,7 @@ func (c *evalCtx) applySpec(sf *SpecFunc, args []ast.Expr) SV {
 	if sf.Ret == "bool" {
 		res = SV{t: types.Typ[types.Bool], term: sc.evalBoolText(sf.Body)}
 	} else {
-		e, err := parser.ParseExpr(sf.Body)
+		e, err := parseExprText(sf.Body)
 		if err != nil {
 			cfail("spec %s: %v", sf.Name, err)
 		}
@@ -855,4 +895,21 @@ func (e *FnEnc) floatBits(x string) string {
 	e.decls = append(e.decls, fmt.Sprintf("(assert (= ((_ to_fp 11 53) %s) %s))", b, x))
 	e.fbits[x] = b
 	return b
+}
+
+// tryType resolves a type expression or returns nil.
+func (c *evalCtx) tryType(s string) (t types.Type) {
+	defer func() {
+		if r := recover(); r != nil {
+			t = nil
+		}
+	}()
+	if i := strings.Index(s, "."); i > 0 {
+		return c.resolveType(s)
+	}
+	tv, err := types.Eval(token.NewFileSet(), c.pkg, token.NoPos, s)
+	if err == nil && tv.IsType() {
+		return tv.Type
+	}
+	return nil
 }
